@@ -40,36 +40,70 @@ def check(repo: Repo, rep: Report) -> None:
     for key in KEYS:
         name = key.split("::")[1].split(".")[0]
         TC.check_operator(repo, rep, "K1-signature", key, lambda k, slot, n=name: WHY[n])
-    # zip
+    # zip -- role: the per-source buffers are the local that element handlers append their element to (`Q[i].append(x)`)
     z = repo.fn("reactivex/observable/zip.py", "zip_.subscribe")
+    queues = set()
+    for g in z.walk():
+        if g.is_func:
+            for n in g.direct_nodes():
+                if isinstance(n, ast.Call) and isinstance(n.func, ast.Attribute) and n.func.attr == "append" \
+                        and isinstance(n.func.value, ast.Subscript) and isinstance(n.func.value.value, ast.Name) \
+                        and n.args and isinstance(n.args[0], ast.Name) and n.args[0].id in g.params:
+                    queues.add(n.func.value.value.id)
+    rep.require(len(queues) == 1, "zip: per-source buffers")
+    def mentions(e, names):
+        return any(isinstance(x, ast.Name) and x.id in names for x in ast.walk(e))
+    def is_call(e, fname):
+        return isinstance(e, ast.Call) and isinstance(e.func, ast.Name) and e.func.id == fname
     for g, s, k in TC.downstream_sites(z, ("on_next",)):
         gt = TC.guards_text(s)
-        rep.ob("G1-gating", g, f"zip emits under {gt}", any("all(" in t and "queues" in t for t in gt),
+        rep.ob("G1-gating", g, f"zip emits under {gt}", any(p and is_call(e, "all") and mentions(e, queues) for e, p in s.ctx.guards),
                "zip emits a tuple although some source has no buffered element")
     for g, s, k in TC.downstream_sites(z, ("on_completed",)):
         gt = TC.guards_text(s)
-        ok = any("len(queue" in t or "any(" in t for t in gt)
+        ok = any(p and mentions(e, queues) and (is_call(e, "any") or (isinstance(e, ast.Compare) and "len(" in u(e))) for e, p in s.ctx.guards)
         rep.ob("G1-gating", g, f"zip completes under {gt}", ok, "zip completes although the completed source still has buffered elements")
-    # combine_latest
+    # combine_latest -- role: the all-have-value flag is a variable assigned from an expression containing all(<has-value cells>)
     c = repo.fn("reactivex/observable/combinelatest.py", "combine_latest_.subscribe")
     for g, s, k in TC.downstream_sites(c, ("on_next",)):
         gt = TC.guards_text(s)
-        rep.ob("G1-gating", g, f"combine_latest emits under {gt}", any("has_value_all" in t and not t.startswith("not") for t in gt),
-               "combine_latest emits before every source has produced a value")
+        flags = {t.id for n in g.direct_nodes() if isinstance(n, ast.Assign) for t in n.targets if isinstance(t, ast.Name)
+                 and any(is_call(x, "all") for x in ast.walk(n.value))}
+        ok = any(p and ((isinstance(e, ast.Name) and e.id in flags) or is_call(e, "all")) for e, p in s.ctx.guards)
+        rep.ob("G1-gating", g, f"combine_latest emits under {gt}", ok, "combine_latest emits before every source has produced a value")
     for g, s, k in TC.downstream_sites(c, ("on_completed",)):
         gt = TC.guards_text(s)
-        rep.ob("G1-gating", g, f"combine_latest completes under {gt}", any("all(" in t for t in gt), "combine_latest completes before all sources are done")
-    # with_latest_from
+        rep.ob("G1-gating", g, f"combine_latest completes under {gt}", any(p and is_call(e, "all") for e, p in s.ctx.guards),
+               "combine_latest completes before all sources are done")
+    # with_latest_from -- role: `values` is the list the child handlers store into; it is initialised with a sentinel object
     w = repo.fn("reactivex/observable/withlatestfrom.py", "with_latest_from_.subscribe")
+    stores = set()
+    for g in w.walk():
+        if g.is_func and g.params:
+            for n in g.direct_nodes():
+                if isinstance(n, ast.Assign) and isinstance(n.targets[0], ast.Subscript) and isinstance(n.targets[0].value, ast.Name) \
+                        and isinstance(n.value, ast.Name) and n.value.id in g.params:
+                    stores.add(n.targets[0].value.id)
+    rep.require(len(stores) == 1, "with_latest_from: latest-values list")
+    vals = next(iter(stores))
     for g, s, k in TC.downstream_sites(w, ("on_next",)):
         gt = TC.guards_text(s)
-        rep.ob("G1-gating", g, f"with_latest_from emits under {gt}", any("NO_VALUE not in values" in t for t in gt),
+        ok = False
+        for e, p in s.ctx.guards:
+            if isinstance(e, ast.Compare) and len(e.ops) == 1 and isinstance(e.ops[0], (ast.NotIn, ast.In)) and isinstance(e.left, ast.Name) \
+                    and isinstance(e.comparators[0], ast.Name) and e.comparators[0].id == vals and p == isinstance(e.ops[0], ast.NotIn):
+                sentinel = e.left.id
+                o = g.owner(vals)
+                inits = [n.value for n in (o.direct_nodes() if o is not None else ()) if isinstance(n, (ast.Assign, ast.AnnAssign)) and n.value is not None
+                         and u(n.targets[0] if isinstance(n, ast.Assign) else n.target) == vals]
+                ok = bool(inits) and all(mentions(v, {sentinel}) for v in inits)
+        rep.ob("G1-gating", g, f"with_latest_from emits under {gt}", ok,
                "with_latest_from emits before every other source has a value (or decides by truthiness of the values)")
     # fork_join
     f = repo.fn("reactivex/observable/forkjoin.py", "fork_join_.subscribe")
     for g, s, k in TC.downstream_sites(f, ("on_next",)):
         gt = TC.guards_text(s)
-        rep.ob("G1-gating", g, f"fork_join emits under {gt}", any("all(" in t or "has_value" in t for t in gt) and bool(gt),
+        rep.ob("G1-gating", g, f"fork_join emits under {gt}", sum(1 for e, p in s.ctx.guards if p and is_call(e, "all")) >= 2,
                "fork_join emits without all sources having completed with a value")
     # amb
     a = repo.fn("reactivex/operators/_amb.py", "amb_.subscribe")
@@ -78,8 +112,36 @@ def check(repo: Repo, rep: Report) -> None:
         ok, flag = winner_gate_ok(a, g, s)
         n += 1
         rep.ob("G1-gating", g, f"amb {g.name}: {short(s.node)} behind the winner gate", ok, "a notification bypasses amb's winner choice")
-    for side, other in (("choice_left", "right_subscription"), ("choice_right", "left_subscription")):
+    # role: the choice helper called by one side's handlers disposes the holder of the *other* side's subscription
+    from ..model import is_subscribe_call
+    subs = [x for x in sites(a) if is_subscribe_call(x.node)]
+    rep.require(len(subs) == 2, "amb: two subscriptions")
+    def holder_of(x):
+        tgt = x.stmt.targets[0] if isinstance(x.stmt, ast.Assign) else None
+        if isinstance(tgt, ast.Attribute) and tgt.attr == "disposable":
+            return u(tgt.value)
+        if isinstance(tgt, ast.Name):
+            for y in sites(a):
+                if isinstance(y.node, ast.Assign) and isinstance(y.node.targets[0], ast.Attribute) and y.node.targets[0].attr == "disposable" \
+                        and u(y.node.value) == tgt.id:
+                    return u(y.node.targets[0].value)
+        return None
+    def chooser_of(x):
+        out = set()
+        for arg in x.node.args:
+            h = a.resolve_local_def(arg.id) if isinstance(arg, ast.Name) else None
+            if h is not None:
+                for m in h.direct_nodes():
+                    if isinstance(m, ast.Call) and isinstance(m.func, ast.Name) and a.resolve_local_def(m.func.id) is not None:
+                        out.add(m.func.id)
+        return out
+    info = [(chooser_of(x), holder_of(x)) for x in subs]
+    for i, (choosers, holder) in enumerate(info):
+        other_holder = info[1 - i][1]
+        rep.require(len(choosers) == 1 and holder is not None and other_holder is not None, "amb: choice helper / subscription holders")
+        side = next(iter(choosers))
         ch = a.child(side)
-        ok = ch is not None and any(isinstance(s.node, ast.Call) and dotted(s.node.func) == f"{other}.dispose" and
-                                    any("choice" in u(e) and not p for e, p in s.ctx.guards) for s in sites(ch))
-        rep.ob("G1-gating", a, f"{side}: loser ({other}) disposed with the choice", ok, "the losing source is not unsubscribed at the moment the winner is chosen")
+        ok = ch is not None and any(isinstance(x.node, ast.Call) and dotted(x.node.func) == f"{other_holder}.dispose" and
+                                    any((not p) and any(isinstance(t, ast.Assign) and u(t.targets[0]) == u(e) for t in ch.direct_nodes())
+                                        for e, p in x.ctx.guards) for x in sites(ch))
+        rep.ob("G1-gating", a, f"{side}: loser's subscription disposed with the choice", ok, "the losing source is not unsubscribed at the moment the winner is chosen")
